@@ -11,7 +11,7 @@ use std::borrow::Cow;
 use vmodel::par::par_for_chunked;
 use vmodel::{Reporter, Tier};
 
-const NAMES: [&str; 3] = ["en", "fr", "de"];
+const NAMES: [&str; 4] = ["en", "fr", "de", "en-US"];
 fn loc(i: usize) -> Locale {
     [Locale::en, Locale::fr, Locale::de][i]
 }
@@ -56,20 +56,26 @@ fn cookie_locales(v: &str) -> (Option<usize>, bool) {
     (None, false)
 }
 
-/// C12 oracle specialised to the three plain locales: first header entry naming a locale
-fn accepted(accept: Option<&str>) -> usize {
-    let Some(a) = accept else { return 0 };
+/// C12 oracle: the first header entry some configured locale matches (exactly or as a less specific form)
+/// decides; the answer is the exact match if there is one, else any configured locale matching that entry;
+/// nothing matchable -> the default
+fn accepted(accept: Option<&str>) -> Vec<usize> {
+    use icu_locid::LanguageIdentifier as Lid;
+    let matches = |s: &Lid, r: &Lid| (s.language.is_empty() || s.language == r.language) && (s.script.is_none() || s.script == r.script) && (s.region.is_none() || s.region == r.region) && (s.variants.is_empty() || s.variants == r.variants);
+    let Some(a) = accept else { return vec![0] };
+    let supported: Vec<Lid> = NAMES.iter().map(|n| n.parse().unwrap()).collect();
     for entry in a.split(',') {
         let tag = entry.split(';').next().unwrap_or("");
-        let Ok(lid) = tag.parse::<icu_locid::LanguageIdentifier>() else { continue };
-        for (i, n) in NAMES.iter().enumerate() {
-            let s: icu_locid::LanguageIdentifier = n.parse().unwrap();
-            if s.language == lid.language {
-                return i;
-            }
+        let Ok(lid) = tag.parse::<Lid>() else { continue };
+        if let Some(i) = supported.iter().position(|s| *s == lid) {
+            return vec![i];
+        }
+        let m: Vec<usize> = (0..supported.len()).filter(|i| matches(&supported[*i], &lid)).collect();
+        if !m.is_empty() {
+            return m;
         }
     }
-    0
+    vec![0]
 }
 
 /// set of admissible initial locales
@@ -79,12 +85,16 @@ fn expected(e: &Env) -> Vec<usize> {
             if let Some(v) = cookie_value(&e.cookie_header, name) {
                 match cookie_locales(&v) {
                     (Some(i), false) => return vec![i],
-                    (Some(i), true) => return vec![i, accepted(e.accept)],
+                    (Some(i), true) => {
+                        let mut v = vec![i];
+                        v.extend(accepted(e.accept));
+                        return v;
+                    }
                     _ => {}
                 }
             }
         }
-        vec![accepted(e.accept)]
+        accepted(e.accept)
     };
     if !e.sub {
         return main_resolution(e.enable_cookie, e.cookie_name.unwrap_or(DEFAULT_COOKIE));
@@ -112,7 +122,7 @@ fn expected(e: &Env) -> Vec<usize> {
         }
     }
     if !decided {
-        out.push(accepted(e.accept));
+        out.extend(accepted(e.accept));
     }
     out
 }
@@ -179,7 +189,7 @@ pub fn run(tier: Tier) -> i32 {
     cookie_headers.push(Some(format!("{DEFAULT_COOKIE}=de; custom=fr")));
     cookie_headers.push(Some(format!("custom=de; {DEFAULT_COOKIE}=fr")));
     cookie_headers.push(Some("other=fr".to_string()));
-    let accepts: Vec<Option<&'static str>> = vec![None, Some(""), Some("en"), Some("fr"), Some("de"), Some("it"), Some("it,fr"), Some("fr;q=0.1,de"), Some("garbage!!"), Some("de-DE,en"), Some("fr-CA,de;q=0.5"), Some("*"), Some("xx,yy,de")];
+    let accepts: Vec<Option<&'static str>> = vec![None, Some(""), Some("en"), Some("fr"), Some("de"), Some("it"), Some("it,fr"), Some("fr;q=0.1,de"), Some("garbage!!"), Some("de-DE,en"), Some("fr-CA,de;q=0.5"), Some("*"), Some("xx,yy,de"), Some("fr,en-US;q=0.8"), Some("en-US,fr"), Some("en-GB,fr"), Some("en,en-US"), Some("it,fr-CA;q=0.9,en-US;q=0.5"), Some("en-US-posix,de")];
     let mut envs: Vec<Env> = vec![];
     for ch in &cookie_headers {
         for a in &accepts {
@@ -221,7 +231,7 @@ pub fn run(tier: Tier) -> i32 {
         let class = if e.sub {
             format!("sub/{}", if e.initial.is_some() { "initial-or-cookie" } else if e.parent.is_some() { "parent-or-cookie" } else { "resolution-or-cookie" })
         } else {
-            format!("main/{}", if exp.len() > 1 { "cookie-with-whitespace" } else if exp[0] == accepted(e.accept) { "header-or-default-or-same" } else { "cookie" })
+            format!("main/{}", if exp.len() > 1 { "cookie-with-whitespace" } else if accepted(e.accept).contains(&exp[0]) { "header-or-default-or-same" } else { "cookie" })
         };
         *classes.lock().unwrap().entry(format!("{class}->{}", NAMES[got])).or_insert(0) += 1;
     });
